@@ -6,12 +6,14 @@
 
 //! This module parses eBPF assembly language source code.
 
-use combine::parser::char::{alpha_num, char, digit, hex_digit, spaces, string};
+use combine::error::Token;
+use combine::parser::char::{alpha_num, char, digit, hex_digit, letter, spaces, string};
 use combine::stream::position::{self};
 #[cfg(feature = "std")]
 use combine::EasyParser;
 use combine::{
-    attempt, between, eof, many, many1, one_of, optional, sep_by, ParseError, Parser, Stream,
+    attempt, between, eof, many, many1, not_followed_by, one_of, optional, sep_by, ParseError,
+    Parser, Stream,
 };
 
 use crate::lib::*;
@@ -77,7 +79,12 @@ where
     I: Stream<Token = char>,
     I::Error: ParseError<I::Token, I::Range, I::Position>,
 {
-    let register_operand = register().map(Operand::Register);
+    // An 'r' followed by a letter is not a register but the name of the next instruction (e.g.
+    // rsh), which may directly follow an instruction without operands (e.g. exit).
+    let register_operand = not_followed_by(attempt((char('r'), letter())).map(|_| "instruction"))
+        .with(register())
+        .map(Operand::Register)
+        .expected(Token('r'));
     let immediate = integer().map(Operand::Integer);
     let memory = between(char('['), char(']'), (register(), optional(integer())))
         .map(|t| Operand::Memory(t.0, t.1.unwrap_or(0)));
